@@ -415,3 +415,25 @@ package transaction
 //@   at call(pessimisticRollbackMutations) assert all: recv == txn.committer && arg_mutations.(*PlainMutations).keys == keys
 //@   ensures tried: old(txn.lockedCnt) != 0 ==> txn.committer.rbTried && (result == nil && !old(txn.committer.rbDone) ==> txn.committer.rbDone)
 //@   ensures same: txn.committer == old(txn.committer)
+
+// ---- C03: an unanswered prewrite of an async-commit / one-phase transaction is already undetermined ---------------------
+// When a prewrite batch ends with an error after its sender saw an RPC error (the request may have reached the store) and
+// the transaction is async commit or one-phase - where a successful prewrite IS the commit - the undetermined mark is set
+// to that RPC error, unless the whole prewrite was cancelled; it is set in no other case here.
+//@ func (*prewrite1BatchReqHandler) drop
+//@   prop C03
+//@   may-panic
+//@   opaque-callee ResolveLocksDone GetLockResolver
+//@   at call(setUndeterminedErr) assert record: err != nil && arg_err != nil && (handler.committer.isAsyncCommit() || handler.committer.isOnePC()) && handler.committer.prewriteCancelled == 0
+//@   ensures marked: err != nil && (old(handler.committer.useAsyncCommit) > 0 || old(handler.committer.useOnePC) > 0) && old(handler.sender.rpcError) != nil && old(handler.committer.prewriteCancelled) == 0 ==> handler.committer.mu.undeterminedErr == old(handler.sender.rpcError)
+//@   ensures untouched: err == nil ==> handler.committer.mu.undeterminedErr == old(handler.committer.mu.undeterminedErr)
+
+// A store that answers the prewrite of such a transaction with "undetermined result" makes the batch fail with exactly
+// the undetermined-result error, without retry.
+//@ func (*prewrite1BatchReqHandler) handleRegionErr
+//@   prop C03
+//@   may-panic
+//@   requires regionErr != nil
+//@   opaque-callee MayBackoffForRegionError relocate doActionOnMutations GetRegionCache
+//@   loop 1 invariant l1: true
+//@   ensures undetermined: regionErr.UndeterminedResult != nil && (old(handler.committer.useAsyncCommit) > 0 || old(handler.committer.useOnePC) > 0) ==> !retryable && errors.Is(err, tikverr.ErrResultUndetermined)
